@@ -6,6 +6,7 @@ from specs.prim import pow2, uleb_partial
 @contract("elftools/common/utils.py", "roundup", props=["C14", "C16"])
 class roundup:
     params = dict(num=Nat, bits=OneOf(0, 1, 2, 3, 4))
+    returns = Int
     ensures = ["result >= num", "result < num + 2**bits", "result % (2**bits) == 0"]
 
 
